@@ -253,8 +253,12 @@ def main():
         else:
             notes.append("dev-profile harness build failed")
     # ---- verdict
-    for line, v in stats["oracle_fail_unlisted"][:3]:
-        p = write_replay(workdir, "%s-oracle-%d.json" % (pid, line), {"property": pid, "what": "property predicate false on the real crate's output", "verdict": strip(v), "ops": scenario_of(ops, line)})
+    for n_v, (line, v) in enumerate(stats["oracle_fail_unlisted"][:3]):
+        sc = scenario_of(ops, line)
+        small = None
+        if n_v == 0 and not args.replay:
+            small = shrink_scenario(pid, cfg, binp, sc, workdir, known, nouf_bin=nouf_bin)
+        p = write_replay(workdir, "%s-oracle-%d.json" % (pid, line), {"property": pid, "what": "property predicate false on the real crate's output", "verdict": strip(v), "ops": ([{"op": "scenario", "kind": "shrunk"}] + small) if small else sc, "unshrunk_ops": sc if small else None})
         violations.append((p, ""))
     if not stats["oracle_fail_unlisted"]:
         if stats["disagree"]:
@@ -350,6 +354,52 @@ def analyse(pid, cfg, ops, verdicts, known):
         if len(st["samples"]) < 3 and v.get("nontrivial"):
             st["samples"].append({"kind": cur_kind, "hex": (o.get("hex") or "")[:160], "tags": v.get("tags"), "oracle": v.get("oracle"), "corr": corr})
     return st
+
+
+def shrink_scenario(pid, cfg, binp, scen_ops, workdir, known, nouf_bin=None, budget=40):
+    """delta-debugging of a failing scenario: drop operations / messages while the property predicate still
+    fails on the real crate for an input outside the listed findings"""
+    def fails(ops_try):
+        try:
+            ops2, verdicts2, _ = run_pipeline(binp, [("shrink", ops_try)], workdir, "shrink", nouf_bin=nouf_bin)
+        except Exception:
+            return False
+        return bool(analyse(pid, cfg, ops2, verdicts2, known)["oracle_fail_unlisted"])
+    cur = [dict((k, v) for k, v in o.items() if k not in ("sid",)) for o in scen_ops if o.get("op") not in ("scenario", "config")]
+    # ops produced by the encode pass carry both msgs and hex: keep the abstract form when present
+    for o in cur:
+        if "msgs" in o and "cutfrac" not in o:
+            o.pop("hex", None)
+    if not fails(cur):
+        return None
+    tries = 0
+    changed = True
+    while changed and tries < budget:
+        changed = False
+        for i in range(len(cur) - 1, -1, -1):
+            if cur[i].get("op") == "new" or tries >= budget:
+                continue
+            tries += 1
+            cand = cur[:i] + cur[i + 1:]
+            if fails(cand):
+                cur = cand
+                changed = True
+                break
+        if changed:
+            continue
+        for i, o in enumerate(cur):
+            if o.get("op") == "parse" and isinstance(o.get("msgs"), list) and len(o["msgs"]) > 1 and tries < budget:
+                for j in range(len(o["msgs"]) - 1, -1, -1):
+                    tries += 1
+                    cand = [dict(x) for x in cur]
+                    cand[i]["msgs"] = o["msgs"][:j] + o["msgs"][j + 1:]
+                    if fails(cand):
+                        cur = cand
+                        changed = True
+                        break
+                if changed:
+                    break
+    return cur
 
 
 def search_neighbourhood(pid, cfg, binp, ops, disagree, workdir, rng, known):
